@@ -13,6 +13,7 @@
                       cursor/limit idioms of one buffer (so neither hashes nor sort orders can depend on addresses)
  R6 path              the name/path of the input file and the working directory reach generated text only at frozen sites
  R7 append            every file-name template exp2cxx appends to is also created (truncated) by the same run (shared with C17)
+ R8 discriminated     `Rename::object` (void *) is dereferenced as a scope only after `Rename::type` was tested on every path
 """
 import re
 from ir import walk, strip, expr_str
@@ -39,7 +40,8 @@ EXPLANATION = (
     "pointer comparisons only in the functions frozen as 'cursor and limit of one buffer'. (R6) input_filename, "
     "Symbol_::filename, getcwd and __FILE__ as arguments of output sinks. (R7) every file-name template that exp2cxx opens in "
     "append mode is also opened for writing under the same template in the same run (templates from the string-template "
-    "interpreter of C17), so no output file carries text over from an earlier run. "
+    "interpreter of C17), so no output file carries text over from an earlier run. (R8) every dereference of a cast `Rename::object` in the generators is "
+    "preceded on every CFG path from the definition of the Rename variable by a test of its `type`. "
     "Not decided: nondeterminism through undefined behaviour elsewhere (C05/C06 cover memory safety), locale, reads of "
     "uninitialised locals, and the iteration order of the hash tables beyond 'hashes and comparators see characters only'.")
 
@@ -602,7 +604,66 @@ def r7_append_only_to_created(prog, res):
     res.floor("R7.append_only_to_created", "file-name templates of the generator", len(gen), 10)
 
 
+def site_key(fn, rule, desc, counters):
+    base = "%s|%s|%s|%s" % (rule, fn.relfile(), fn.name, desc)
+    c = counters.get(base, 0)
+    counters[base] = c + 1
+    return base if c == 0 else "%s#%d" % (base, c)
+
+
+def r8_discriminated_object(prog, res):
+    """`Rename::object` is a `void *` whose kind is recorded in `Rename::type` (entity, type, constant, function, ...).  Casting it
+    to a Scope/Entity/Type and dereferencing it without having looked at `type` reads a Variable_ (a constant) as if it were a
+    scope: pointer bytes end up as `names` in the generated text, different on every run.  On every path from the point where
+    the Rename variable gets its value to such a dereference a test of its `type` must have been passed."""
+    n = 0
+    counters = {}
+    for f in prog.all_functions():
+        if f.component not in OUT_COMPONENTS or f.cfg is None:
+            continue
+        for x in f.walk():
+            if x["k"] != "Member" or not x.get("arrow") or not x.get("ch"):
+                continue
+            b = x["ch"][0]
+            inner = strip(b)
+            if b is None or b["k"] != "Cast" or inner is None or inner["k"] != "Member" or inner.get("q") != "Rename::object":
+                continue
+            rv = strip(inner["ch"][0]) if inner.get("ch") else None
+            if rv is None or rv["k"] != "Ref":
+                continue
+            n += 1
+            d = rv["d"]
+
+            def is_test(e, d=d):
+                for y in walk(e):
+                    if y["k"] == "Member" and y.get("q") == "Rename::type" and y.get("ch") and strip(y["ch"][0]) is not None and strip(y["ch"][0]).get("d") == d:
+                        par = f.parent.get(y["i"])
+                        # a read inside a condition / comparison, not a use as a printf argument
+                        while par is not None and par["k"] == "Cast":
+                            par = f.parent.get(par["i"])
+                        if par is not None and (par["k"] in ("Binary", "Switch", "If") or par["k"] == "Unary"):
+                            return True
+                return False
+            defs = []
+            for y in f.walk():
+                if y["k"] == "Assign" and strip(y["ch"][0]) is not None and strip(y["ch"][0])["k"] == "Ref" and strip(y["ch"][0]).get("d") == d:
+                    defs.append(f.cfg.locate(y))
+                elif y["k"] == "Var" and y.get("d") == d and y.get("ch") and y["ch"][0] is not None:
+                    defs.append(f.cfg.locate(y))
+            if rv.get("dk") == "param" or not defs:
+                defs.append((f.cfg.entry, -1))
+            pos = f.cfg.locate(x)
+            bad = [p_ for p_ in defs if p_ is not None and f.cfg.reaches(p_, pos, is_test)]
+            ok = not bad
+            res.add("R8.object_kind_tested", site_key(f, "R8", "(%s)%s->object" % (f.ty(b).replace("struct ", "").replace(" *", ""), rv["n"]), counters), f.where(x), ok,
+                    "`%s->type` is tested on every path before `%s->object` is used as a %s" % (rv["n"], rv["n"], f.ty(b)) if ok else
+                    "`%s->object` is cast to %s and dereferenced on a path that never looked at `%s->type`: for a CONSTANT brought in by USE / "
+                    "REFERENCE the object is a Variable_, whose first word is a pointer - pointer bytes are printed as a name" % (rv["n"], f.ty(b), rv["n"]))
+    res.floor("R8.object_kind_tested", "dereferences of a cast Rename::object in the generators", n, 10)
+
+
 def run(prog, res, tier):
+    r8_discriminated_object(prog, res)
     r7_append_only_to_created(prog, res)
     r1_r2_formats(prog, res)
     r3_union(prog, res)
